@@ -1,7 +1,41 @@
-"""C11 — production names rename glyphs and change nothing else."""
-from pyvc.api import BOOL, CONTRACTS, INT, STR, Const, Dict, List, Loop, Opt, Ref, Runtime, Set, Tuple, contract, specfn
+"""C11 — production names rename glyphs and change nothing else.
+
+Functions of Lib/ufo2ft/postProcessor.py under contract here:
+
+* PostProcessor._unique_name            fresh / recorded / monotone / shape / legality preserved (all inputs)
+* PostProcessor._build_production_names values pairwise distinct, never equal to a name that is kept, legal
+                                        characters only, domain = the glyphs present in the source (all inputs)
+* PostProcessor._build_production_name  variant `lib`: the lib-supplied name wins when it is non-empty (all inputs);
+                                        the generated-name rules (uniXXXX, suffixes, ligatures) are outside the
+                                        engine's string fragment -> bounded reference check in vcheck/hooks/c11.py
+* PostProcessor.rename_glyphs           variant `no-cff`: new order = old order mapped position-wise; no duplicate
+                                        in the final glyph order; post.extraNames follow (CFF charset/CharStrings
+                                        rewriting is a dict comprehension with computed keys -> bounded hook)
+* PostProcessor._rename_glyphs_from_ufo composition of the two
+* PostProcessor.set_post_table_format   format written; names refreshed (2.0) / dropped (3.0)
+* PostProcessor.process_glyph_names     decision table over (argument, three lib keys, CFF presence) and the
+                                        typestate clause "the font is reloaded BEFORE it is renamed"
+
+Class vocabulary (PP* = the objects as the post-processor sees them) is ASSUMED: fontTools' TTFont as
+(glyph order, table presence, a `post` table object, the typestate flag `pristine`), `_reloadFont` as
+"returns a fresh, pristine font with the same glyph order and table set", `re.Pattern.sub` for the
+class constant GLYPH_NAME_INVALID_CHARS (the character class is read from the REAL class on every run).
+"""
+import re as _re
+
+import z3
+
+from pyvc import ty as T
+from pyvc.api import BOOL, CLASSES, CONTRACTS, INT, REAL, STR, Const, Dict, List, Loop, Map, Opt, Ref, Runtime, Set, Tuple, cls, contract, lemma, specfn, trusted
+from pyvc.core import PYOBJ, ContractMisfit, Unsupported, Val, fresh, lift
+from pyvc.ops import is_const
 
 from . import lib, spec  # noqa: F401
+
+PP = "ufo2ft.postProcessor:PostProcessor"
+
+# =====================================================================================================
+# spec vocabulary
 
 
 @specfn(STR, name=STR, n=INT)
@@ -10,26 +44,329 @@ def suffixed(name, n):
     return name + ".%d" % n
 
 
+LEGAL_CHARS = "0123456789abcdefghijklmnopqrstuvwxyzABCDEFGHIJKLMNOPQRSTUVWXYZ_."
+_LEGAL_RANGES = (("0", "9"), ("a", "z"), ("A", "Z"), ("_", "_"), (".", "."))
+_LEGAL_PY = _re.compile(r"[0-9A-Za-z_.]*\Z")
+
+
+def _re_star(ranges):
+    alts = [z3.Range(a, b) if a != b else z3.Re(a) for a, b in ranges]
+    return z3.Star(z3.Union(*alts) if len(alts) > 1 else alts[0])
+
+
+def legal_chars_only(s):
+    """every character of s is one of [0-9A-Za-z_.] (the characters of a PostScript glyph name that
+    ufo2ft allows); the empty string counts as legal here (emptiness is a separate matter)"""
+    return _LEGAL_PY.match(s) is not None
+
+
+_legal_p = z3.Function("legal_chars_only", z3.StringSort(), z3.BoolSort())
+
+
+def _legal_term(s, ranges=_LEGAL_RANGES):
+    """s ∈ A* for the alphabet A, pushed through ++ / ite / literals / str.from_int; what remains is an atom
+    P_A(t) of an UNINTERPRETED predicate (the solvers' regular-expression engines time out on these VCs, and
+    nothing but the rewrites below is ever needed).
+
+    Each rewrite is a theorem of the SMT-LIB theory of strings for P_A(t) := t ∈ A*, whenever A contains the digits:
+      (a ++ b) ∈ A*  ⇔  a ∈ A* ∧ b ∈ A*;   ite(c,a,b) ∈ A* ⇔ ite(c, a ∈ A*, b ∈ A*);
+      str.from_int(n) ∈ [0-9]* ⊆ A*;        a literal is decided by evaluation.
+    Hence every proof from these rules is valid for the intended meaning.  (The concatenation schema is re-proved
+    with the real regular expression on every run: lemma C11.legal-concat; the digit schema is the trusted
+    semantics of "%d" formatting, conformance-tested in vcheck/hooks/c11.py.)"""
+    if z3.is_string_value(s):
+        v = s.as_string()
+        return z3.BoolVal(all(any(a <= ch <= b for a, b in ranges) for ch in v))
+    if z3.is_app(s):
+        k = s.decl().kind()
+        if k == z3.Z3_OP_SEQ_CONCAT:
+            return z3.And(*[_legal_term(c, ranges) for c in s.children()])
+        if k == z3.Z3_OP_ITE:
+            return z3.If(s.arg(0), _legal_term(s.arg(1), ranges), _legal_term(s.arg(2), ranges))
+        if k == z3.Z3_OP_INT_TO_STR and all(any(a <= d <= b for a, b in ranges) for d in "0123456789"):
+            return z3.BoolVal(True)
+    if frozenset(ranges) == frozenset(_LEGAL_RANGES):
+        return _legal_p(s)
+    # a different alphabet (the repo's character class was changed): its own predicate, unrelated to `legal`
+    nm = "in_star_" + "".join("%02x%02x" % (ord(a), ord(b)) for a, b in sorted(ranges))
+    return z3.Function(nm, z3.StringSort(), z3.BoolSort())(s)
+
+
+@trusted("contracts.c11.legal_chars_only", "DEFINITION (spec vocabulary): legal_chars_only(s) ⇔ s ∈ [0-9A-Za-z_.]*")
+def _legal_model(ex, st, args, kwargs, node):
+    (s,) = args
+    if is_const(s):
+        return Val.const(legal_chars_only(s.py))
+    return Val(BOOL, _legal_term(lift(ex.deopt(s, st, node), STR)))
+
+
+@specfn(BOOL, s=STR)
+def legal(s):
+    """only characters legal in a PostScript glyph name"""
+    return legal_chars_only(s)
+
+
+# =====================================================================================================
+# class vocabulary (ASSUMED models of fontTools / ufoLib2 objects as the post-processor uses them)
+
+
+class StaticShim(str):
+    """`self.m(...)` / `cls.m(...)` where m is a staticmethod/classmethod under contract: route the call to
+    the contract WITHOUT the receiver.  (Engine gap, see notes/C11.requests.md R1; being a `str` it is also
+    seen by the loop-effect analysis as the contract key, so callee `modifies` are havocked correctly.)"""
+
+    def __call__(self, ex, st, recv, args, kwargs, node):
+        return ex.call_contract(CONTRACTS[str(self)], list(args), kwargs, st, node)
+
+
+def _set_of_list(v):
+    from pyvc.models import seq_to_set
+
+    return seq_to_set(v)
+
+
+# ---- glyph set -----------------------------------------------------------------------------------------
+cls("PPGlyph", fields={"name": STR, "unicode": Opt(INT)}, notes="source glyph: name, first code point (ufoLib2/defcon Glyph.unicode)")
+
+
+def _gs_glyphs(ex, st, self):
+    return ex.read_field(st, self, "glyphs")
+
+
+def _gs_keyset(ex, st, self):
+    d = _gs_glyphs(ex, st, self)
+    return Val(Set(STR), d.ty.sort().dom(d.term))
+
+
+def _gs_contains(ex, st, self, x):
+    d = _gs_glyphs(ex, st, self)
+    return z3.Select(d.ty.sort().dom(d.term), lift(x, STR))
+
+
+def _gs_getitem(ex, st, self, idx, node):
+    return ex.getitem(_gs_glyphs(ex, st, self), idx, st, node)
+
+
+cls(
+    "PPGlyphSet",
+    fields={"glyphs": Dict(STR, Ref("PPGlyph"))},
+    derived={"keyset": _gs_keyset},
+    getitem=_gs_getitem,
+    contains=_gs_contains,
+    views={"keyset": lambda o: set(o.keys())},
+    notes="glyph set of the source (dict or Font): name -> glyph; `in`, [] (KeyError when absent)",
+)
+
+
+# ---- the compiled font ---------------------------------------------------------------------------------------
+def _order_iter(ex, st, self, args, kwargs, node):
+    """getGlyphOrder(): the glyph order list.  Presented to the engine as an iterable that ALSO carries the
+    set view of its elements, so that `{n: 1 for n in order if c(n)}` (dict comprehension over a list, not in
+    the engine's fragment otherwise) is encoded exactly: domain {x ∈ order | c(x)}, every value 1."""
+    from pyvc.stmts import IterInfo
+
+    order = ex.read_field(st, self, "glyphOrder")
+    s = order.term
+    dt = Dict(STR, INT)
+    dom = _set_of_list(order).term
+    dterm = dt.sort().mk(dom, z3.K(z3.StringSort(), z3.IntVal(0)), s)
+    from pyvc.core import seq_nth
+
+    info = IterInfo(
+        "indexed", n=z3.Length(s), item=lambda i: Val(STR, seq_nth(s, i)), seqval=order,
+        facts=lambda i: [z3.Select(dom, seq_nth(s, i))],
+    )
+    info.dict_items = (dt, dterm, "keys")
+    return Val(PYOBJ, None, ("iterinfo", info, None), True)
+
+
+def _set_order(ex, st, self, args, kwargs, node):
+    (v,) = args
+    from pyvc.core import coerce
+
+    ex.write_field(st, self, "glyphOrder", coerce(v, List(STR)), node)
+    return Val.const(None)
+
+
+_TAGS = {"post": "has_post", "CFF ": "has_CFF", "CFF2": "has_CFF2"}
+
+
+def _font_has(ex, st, self, tag):
+    if not is_const(tag) or tag.py not in _TAGS:
+        raise Unsupported(f"PPFont: table tag {tag} is not in the modelled set {sorted(_TAGS)}")
+    return ex.read_field(st, self, _TAGS[tag.py]).term
+
+
+def _font_contains(ex, st, self, x):
+    return _font_has(ex, st, self, x)
+
+
+def _font_getitem(ex, st, self, idx, node):
+    if is_const(idx) and idx.py == "post":
+        ex.safety(st, _font_has(ex, st, self, idx), "KeyError", node)
+        return ex.read_field(st, self, "post")
+    raise Unsupported(f"PPFont[{idx}]: only the 'post' table object is modelled", node)
+
+
+def _font_get(ex, st, self, args, kwargs, node):
+    tag = args[0]
+    if is_const(tag) and tag.py == "post" and len(args) == 1:
+        # Optional table: None when absent.  Returned as the PPPost reference whose truthiness is `present`
+        # (the engine has no truthiness for Opt[Ref]); the code only tests `if post:`.  A table object is truthy.
+        p = ex.read_field(st, self, "post")
+        st.assume(ex.read_field(st, p, "present").term == _font_has(ex, st, self, tag))
+        return p
+    raise Unsupported("PPFont.get: only get('post')", node)
+
+
+def _font_isloaded(ex, st, self, args, kwargs, node):
+    (tag,) = args
+    if is_const(tag):
+        if tag.py == "CFF2":
+            return ex.read_field(st, self, "CFF2_loaded")
+        raise Unsupported("PPFont.isLoaded: only 'CFF2'", node)
+    # symbolic Optional tag (the code guards the call with cff_tag == "CFF2")
+    t = tag.ty
+    if isinstance(t, T.Opt) and t.inner == STR:
+        s = t.sort()
+        is2 = z3.And(s.is_some(tag.term), s.val(tag.term) == z3.StringVal("CFF2"))
+        return Val(BOOL, z3.If(is2, ex.read_field(st, self, "CFF2_loaded").term, fresh(BOOL, "isLoaded")))
+    raise Unsupported("PPFont.isLoaded of a computed tag", node)
+
+
+cls(
+    "PPPost",
+    fields={"present": BOOL, "formatType": REAL, "extraNames": List(STR), "mapping": Dict(STR, INT), "glyphOrder": Opt(List(STR)),
+            "has_extraNames": BOOL, "has_mapping": BOOL},
+    has={"extraNames": "has_extraNames", "mapping": "has_mapping"},
+    truth=lambda ex, st, v: ex.read_field(st, v, "present").term,
+    notes="fontTools 'post' table object: formatType, extraNames, mapping (attributes may be absent: has_*)",
+)
+cls(
+    "PPFont",
+    fields={
+        "glyphOrder": List(STR), "pristine": BOOL, "has_post": BOOL, "has_CFF": BOOL, "has_CFF2": BOOL, "CFF2_loaded": BOOL,
+        "post": Ref("PPPost"),
+    },
+    methods={"getGlyphOrder": _order_iter, "setGlyphOrder": _set_order, "get": _font_get, "isLoaded": _font_isloaded},
+    contains=_font_contains,
+    getitem=_font_getitem,
+    notes="fontTools TTFont as the post-processor sees it: glyph order, presence of post/'CFF '/CFF2, the post table object; "
+          "`pristine` = typestate 'freshly loaded: no table has been decompiled under the current glyph names'",
+)
+
+
+# ---- GLYPH_NAME_INVALID_CHARS.sub("", s) ----------------------------------------------------------------------
+def _survivor_ranges():
+    """The characters that survive `GLYPH_NAME_INVALID_CHARS.sub("", s)`, read from the REAL class constant
+    (a negated character class `[^...]` of literals and ranges; anything else is outside the model)."""
+    import importlib
+
+    pat = importlib.import_module("ufo2ft.postProcessor").PostProcessor.GLYPH_NAME_INVALID_CHARS.pattern
+    m = _re.fullmatch(r"\[\^((?:[A-Za-z0-9_.\-]|[A-Za-z0-9]-[A-Za-z0-9])+)\]", pat)
+    if not m:
+        raise Unsupported(f"GLYPH_NAME_INVALID_CHARS = {pat!r} is not a negated class of literals/ranges")
+    body, out, i = m.group(1), [], 0
+    while i < len(body):
+        if i + 2 < len(body) and body[i + 1] == "-":
+            out.append((body[i], body[i + 2]))
+            i += 3
+        else:
+            out.append((body[i], body[i]))
+            i += 1
+    return tuple(out)
+
+
+_strip_fn = z3.Function("re_strip_invalid", z3.StringSort(), z3.StringSort())
+
+
+def _re_sub(ex, st, self, args, kwargs, node):
+    repl, s = args
+    if not (is_const(repl) and repl.py == ""):
+        raise Unsupported("GLYPH_NAME_INVALID_CHARS.sub with a non-empty replacement", node)
+    s = ex.deopt(s, st, node)
+    if s.ty != STR:
+        raise Unsupported(f"GLYPH_NAME_INVALID_CHARS.sub of {s.ty}", node)
+    ranges = _survivor_ranges()
+    x = lift(s, STR)
+    r = _strip_fn(x)
+    # result consists of surviving characters only, is s itself when nothing has to go, and is never longer
+    st.assume(_legal_term(r, ranges))
+    st.assume(z3.Implies(_legal_term(x, ranges), r == x))
+    st.assume(z3.Length(r) <= z3.Length(x))
+    return Val(STR, r)
+
+
+cls(
+    "PPInvalidRe",
+    methods={"sub": _re_sub},
+    notes="re.Pattern held in PostProcessor.GLYPH_NAME_INVALID_CHARS: sub('', s) deletes every character matching the class "
+          "(result ∈ survivors*, == s if s ∈ survivors*, not longer than s); survivors are parsed from the real pattern",
+)
+
+
+# ---- the post-processor ------------------------------------------------------------------------------------------
+def _pp_order(ex, st, self):
+    return ex.read_field(st, ex.read_field(st, self, "otf"), "glyphOrder")
+
+
+def _pp_srcnames(ex, st, self):
+    return _gs_keyset(ex, st, ex.read_field(st, self, "glyphSet"))
+
+
+_prod_fn = z3.Function("production_name_of", T.RefSort, T.RefSort, z3.StringSort())
+
+
+def _bpn_summary(ex, st, self, args, kwargs, node):
+    """ASSUMED summary of PostProcessor._build_production_name for callers (see the module docstring): it returns a
+    string that is a function of (self, glyph), raises nothing and has no side effect.  Its functional
+    behaviour is proved for the lib-supplied case (contract #lib) and bounded-checked otherwise (hook)."""
+    (g,) = args
+    return Val(STR, _prod_fn(lift(self), lift(g)))
+
+
+_STATIC = ("_unique_name", "rename_glyphs", "set_post_table_format")
+
+cls(
+    "PostProcessor",
+    fields={
+        "otf": Ref("PPFont"), "ufo": Ref("PPUfo"), "glyphSet": Ref("PPGlyphSet"), "_postscriptNames": Opt(Dict(STR, STR)),
+        "GLYPH_NAME_INVALID_CHARS": Ref("PPInvalidRe"),
+    },
+    derived={"order": _pp_order, "srcnames": _pp_srcnames},
+    views={"order": lambda o: list(o.otf.getGlyphOrder()), "srcnames": lambda o: set(o.glyphSet.keys())},
+    methods={**{m: StaticShim(f"{PP}.{m}") for m in _STATIC}, "_build_production_name": _bpn_summary},
+    repo=PP,
+    notes="PostProcessor instance: otf, ufo, glyphSet, _postscriptNames; `order` = otf glyph order, `srcnames` = glyphSet keys",
+)
+
+# =====================================================================================================
+# _unique_name
+
 contract(
-    "ufo2ft.postProcessor:PostProcessor._unique_name",
+    f"{PP}._unique_name",
     props=["C11"],
     params={"name": STR, "seen": Dict(STR, INT)},
     returns=STR,
     modifies=["seen"],
+    # every counter is a positive suffix candidate: holds for the only producer of `seen`
+    # (_build_production_names initialises every entry with 1, _unique_name itself stores 1 or n + 1)
     requires=["all(seen[k] >= 1 for k in seen)"],
     ensures={
-        # the name handed out was not handed out before ...
+        # the name handed out was not handed out (or reserved) before ...
         "fresh": "result not in old(seen)",
         # ... is recorded, so it can never be handed out again ...
         "recorded": "result in seen",
         # ... nothing already recorded is forgotten ...
         "monotone": "all(k in seen for k in old(seen))",
-        # ... and it is the requested name, or that name plus a numeric suffix
-        "shape": "result == name or any(result == suffixed(name, n) for n in range(1, seen[name]))"
-        if False else "implies(name not in old(seen), result == name) and implies(name in old(seen), result == suffixed(name, seen[name] - 1) and seen[name] - 1 >= old(seen)[name])",
+        # ... it is the requested name, or that name plus a positive decimal suffix ...
+        "shape": "implies(name not in old(seen), result == name) and implies(name in old(seen), result == suffixed(name, seen[name] - 1) and seen[name] - 1 >= old(seen)[name])",
+        "prefix": "result == name or result.startswith(name + '.')",
         "counters-positive": "all(seen[k] >= 1 for k in seen)",
+        # ... and the suffix never introduces an illegal character
+        "legal-preserved": "implies(legal(name), legal(result))",
     },
-    canaries={"always-plain": "result == name"},
+    canaries={"always-plain": "result == name", "always-legal": "legal(result)"},
     loops={
         "while name + '.%d' % n in seen": Loop(
             invariants={
@@ -39,4 +376,652 @@ contract(
         )
     },
     locals={"n": INT},
+)
+
+
+def _un_cases(rng, n):
+    bases = ["a", "a.1", "a.2", "a.1.1", "b", "uni0041", ""]
+    out = [
+        {"name": "alpha", "seen": {"alpha": 1}},
+        {"name": "alpha", "seen": {"alpha": 1, "alpha.1": 1}},
+        {"name": "alpha.1", "seen": {"alpha": 2, "alpha.1": 1}},
+        {"name": "a", "seen": {"a": 3, "a.3": 1, "a.4": 1}},
+        {"name": "a", "seen": {}},
+    ]
+    while len(out) < n:
+        seen = {}
+        for _ in range(rng.randint(0, 6)):
+            seen[rng.choice(bases)] = rng.randint(1, 3)
+        out.append({"name": rng.choice(bases), "seen": seen})
+    return out[:n]
+
+
+CONTRACTS[f"{PP}._unique_name"].runtime = Runtime(_un_cases, lambda d: {"name": d["name"], "seen": dict(d["seen"])})
+
+
+# ---- the rewrite schemata used by `legal` are theorems: re-proved on every run ---------------------------
+def legal_chars_only_raw(s):
+    return legal_chars_only(s)
+
+
+@trusted("contracts.c11.legal_chars_only_raw", "DEFINITION: the same predicate as legal_chars_only, encoded as one regular-expression membership (no rewriting)")
+def _legal_raw_model(ex, st, args, kwargs, node):
+    (s,) = args
+    return Val(BOOL, z3.InRe(lift(s, STR), _re_star(_LEGAL_RANGES)))
+
+
+@specfn(BOOL, s=STR)
+def legal_raw(s):
+    return legal_chars_only_raw(s)
+
+
+lemma(
+    "C11.legal-concat", props=["C11"], vars={"a": STR, "b": STR},
+    hyps=[], concl={"concat": "iff(legal_raw(a + b), legal_raw(a) and legal_raw(b))"},
+    canaries={"left-only": "iff(legal_raw(a + b), legal_raw(a))"},
+)
+# (str.from_int(n) ∈ [0-9]* needs induction on the number of digits: no solver proves it; it is the TRUSTED
+# semantics of "%d" formatting, conformance-tested natively in vcheck/hooks/c11.py)
+
+
+# =====================================================================================================
+# _build_production_names
+
+_ORDER = "self.order"
+_SRC = "self.srcnames"
+
+
+def strip_invalid_chars(s):
+    """the string without the characters that are illegal in a PostScript glyph name (independent of the repo's regex)"""
+    return "".join(ch for ch in s if ch in LEGAL_CHARS)
+
+
+@trusted("contracts.c11.strip_invalid_chars", "DEFINITION (spec vocabulary): s with every character outside [0-9A-Za-z_.] deleted "
+         "(the same uninterpreted symbol the model of GLYPH_NAME_INVALID_CHARS.sub('', s) uses, provided the repo's character class is that alphabet)")
+def _strip_model(ex, st, args, kwargs, node):
+    (s,) = args
+    if frozenset(_survivor_ranges()) != frozenset(_LEGAL_RANGES):
+        # the repo deletes a different set of characters: its result is NOT this spec function
+        return Val(STR, z3.Function("spec_strip_legal_alphabet", z3.StringSort(), z3.StringSort())(lift(s, STR)))
+    return Val(STR, _strip_fn(lift(ex.deopt(s, st, node), STR)))
+
+
+@specfn(STR, s=STR)
+def stripped(s):
+    return strip_invalid_chars(s)
+
+
+class _ProdView:
+    def __init__(self, pp):
+        self.pp = pp
+
+    def __getitem__(self, n):
+        return self.pp._build_production_name(self.pp.glyphSet[n])
+
+
+def _pp_prod(ex, st, self):
+    """name -> what _build_production_name returns for the source glyph of that name (the summary's symbol)"""
+    gs = ex.read_field(st, ex.read_field(st, self, "glyphSet"), "glyphs")
+    n = z3.Const("n!prod", z3.StringSort())
+    return Val(Map(STR, STR), z3.Lambda([n], _prod_fn(lift(self), z3.Select(gs.ty.sort().map(gs.term), n))))
+
+
+CLASSES["PostProcessor"].derived["prod"] = _pp_prod
+CLASSES["PostProcessor"].views["prod"] = _ProdView
+# the name a glyph asks for: its sanitised production name, or its sanitised own name when that is over-long (> 63)
+_BASE = "(stripped(a) if (self.prod[a] == a or len(stripped(self.prod[a])) > 63) else stripped(self.prod[a]))"
+_SHAPE = "({m}[a] == " + _BASE + " or {m}[a].startswith(" + _BASE + " + '.'))"
+
+contract(
+    f"{PP}._build_production_names",
+    props=["C11"],
+    params={"self": Ref("PostProcessor")},
+    returns=Dict(STR, STR),
+    requires=[],
+    ensures={
+        # exactly the glyphs of the font that exist in the source are renamed
+        "domain": f"all(iff(n in result, n in {_SRC}) for n in {_ORDER}) and all(k in {_SRC} and k in elems({_ORDER}) for k in result)",
+        # no two glyphs get the same final name ...
+        "unique": "all(all(implies(a != b, result[a] != result[b]) for b in result) for a in result)",
+        # ... and no final name collides with the name of a glyph that keeps its name
+        "reserved": f"all(all(implies(m not in {_SRC}, result[a] != m) for m in {_ORDER}) for a in result)",
+        # only characters legal in a PostScript glyph name
+        "legal": "all(legal(result[a]) for a in result)",
+        # every final name is the name the glyph asks for (see _BASE), or that name plus a '.N' disambiguator
+        "shape": "all(" + _SHAPE.format(m="result") + " for a in result)",
+    },
+    canaries={"identity": "all(result[a] == a for a in result)", "nonempty": "len(result) > 0"},
+    locals={"seen": Dict(STR, INT), "rename_map": Dict(STR, STR), "valid_name": STR, "prod_name": STR},
+    loops={
+        "for name in self.otf.getGlyphOrder()": Loop(
+            index="i",
+            invariants={
+                "counters": "all(seen[k] >= 1 for k in seen)",
+                "kept-reserved": f"all(implies(m not in {_SRC}, m in seen) for m in {_ORDER})",
+                "values-seen": "all(rename_map[a] in seen for a in rename_map)",
+                "unique": "all(all(implies(a != b, rename_map[a] != rename_map[b]) for b in rename_map) for a in rename_map)",
+                "reserved": f"all(all(implies(m not in {_SRC}, rename_map[a] != m) for m in {_ORDER}) for a in rename_map)",
+                "legal": "all(legal(rename_map[a]) for a in rename_map)",
+                "keys": f"all(k in {_SRC} and k in elems({_ORDER}) for k in rename_map)",
+                "covered": f"all(implies({_ORDER}[b] in {_SRC}, {_ORDER}[b] in rename_map) for b in range(i))",
+                "shape": "all(" + _SHAPE.format(m="rename_map") + " for a in rename_map)",
+            },
+        )
+    },
+)
+
+
+# ---- run-time side: real PostProcessor on a real ufoLib2 font and a real (table-less) TTFont -------------------------
+_NAME_POOL = [
+    "a", "b", "a.alt", "a.sc", "f_i", "f_f_i", "f_i.alt", "a_b.sc", "uni0041", "uni0061", "u1F600", "a-cy", "ka-deva", "ka_ssa-deva",
+    "alpha", "alpha.1", "alpha.1.1", "a.1", "A", "Aacute", "x" * 70, "y-" * 35, "_".join(["a-cy"] * 16), "e.fina.alt", "space", "b.a",
+    "noUni", "noUni.alt", "emoji", "emoji_a", "T_h", "é", "a b", "a/b",
+]
+_UNI_POOL = {"a": 0x61, "b": 0x62, "A": 0x41, "Aacute": 0xC1, "a-cy": 0x430, "ka-deva": 0x915, "alpha": 0x3B1, "space": 0x20,
+             "emoji": 0x1F600, "uni0041": 0xE000, "f": 0x66, "i": 0x69, "T": 0x54, "h": 0x68, "e": 0x65, "é": 0xE9}
+_PS_POOL = ["alpha", "alpha", "alpha.1", "uni0041", "a", "", "A-b", "é", "x" * 64, "uni0915094D0937" + ".conjunct" * 6 + "x", "b", "a.alt", ".notdef", "gen1"]
+
+
+def names_cases(rng, n):
+    """Glyph-name sets with suffixes, ligature underscores, collisions with generated uniXXXX names, names > 63
+    characters, illegal characters; public.postscriptNames maps with duplicates / empty / illegal / over-long values;
+    glyphs of the compiled font that are not in the source (kept names, possibly colliding)."""
+    out = [
+        # two glyphs mapped to one name, a later glyph literally named like the auto-suffixed one
+        {"glyphs": ["first", "second", "alpha.1", "last"], "uni": {"first": 0x3B1}, "ps": {"first": "alpha", "second": "alpha"}, "extra": [".notdef"], "front": True},
+        # over-long production name, source name with an illegal character
+        {"glyphs": ["a-cy", "ka-deva", "ka_ssa-deva"], "uni": {"a-cy": 0x430, "ka-deva": 0x915}, "ps": {"a-cy": "uni0430", "ka_ssa-deva": "uni0915094D0937" + ".conjunct" * 6 + "x"}, "extra": [], "front": True},
+        {"glyphs": ["a-cy", "_".join(["a-cy"] * 16)], "uni": {"a-cy": 0x430}, "ps": None, "extra": [], "front": True},
+        # production name colliding with a glyph that is not in the source (keeps its name)
+        {"glyphs": ["a", "b"], "uni": {}, "ps": {"a": ".notdef", "b": "gen1"}, "extra": [".notdef", "gen1"], "front": True},
+        {"glyphs": ["a", "uni0061"], "uni": {"a": 0x61}, "ps": None, "extra": ["uni0061.1"], "front": False},
+        {"glyphs": [], "uni": {}, "ps": {}, "extra": ["x"], "front": True},
+        # ligatures / suffixes with and without code points, generated uniXXXX colliding with a literal uni name
+        {"glyphs": ["f", "i", "f_i", "a", "a.alt", "f_i.alt", "noUni", "noUni.alt", "uni0061", "f_f_i"], "uni": {"f": 0x66, "i": 0x69, "a": 0x61}, "ps": None, "extra": [".notdef"], "front": True},
+        {"glyphs": ["f", "i", "f_i", "a", "a.alt", "emoji", "emoji_a", "a_b.sc", "b"], "uni": {"f": 0x66, "i": 0x69, "a": 0x61, "emoji": 0x1F600}, "ps": {"f_i": "fi", "a.alt": "fi", "b": ""}, "extra": [], "front": True},
+    ]
+    while len(out) < n:
+        k = rng.randint(0, 7)
+        glyphs = rng.sample(_NAME_POOL, k)
+        for base in ("f", "i", "T", "h", "e"):
+            if rng.random() < 0.3 and base not in glyphs:
+                glyphs.append(base)
+        uni = {g: _UNI_POOL[g] for g in glyphs if g in _UNI_POOL and rng.random() < 0.8}
+        r = rng.random()
+        if r < 0.45:
+            ps = None
+        elif r < 0.5:
+            ps = {}
+        else:
+            ps = {g: rng.choice(_PS_POOL) for g in glyphs if rng.random() < 0.6}
+            if rng.random() < 0.2:
+                ps["not-a-glyph"] = "zzz"
+        extra = rng.sample([".notdef", "gen1", "alpha.1", "uni0061", "a", "glyph00007", "a.1"], rng.randint(0, 3))
+        extra = [e for e in extra if e not in glyphs]
+        out.append({"glyphs": glyphs, "uni": uni, "ps": ps, "extra": extra, "front": rng.random() < 0.5})
+    return out[:n]
+
+
+class FakeFont:
+    """A glyph-order holder with TTFont's two glyph-order methods (the binary tables are not needed by the name builders)."""
+
+    def __init__(self, order):
+        self._order = list(order)
+
+    def getGlyphOrder(self):
+        return self._order
+
+    def setGlyphOrder(self, order):
+        self._order = list(order)
+
+
+def build_pp(d, otf=None):
+    import ufoLib2
+    from fontTools.ttLib import TTFont
+
+    from ufo2ft.postProcessor import PostProcessor
+
+    import logging
+
+    logging.getLogger("ufo2ft.postProcessor").setLevel(logging.ERROR)
+    ufo = ufoLib2.Font()
+    for g in d["glyphs"]:
+        gl = ufo.newGlyph(g)
+        if g in d["uni"]:
+            gl.unicodes = [d["uni"][g]]
+    if d["ps"] is not None:
+        ufo.lib["public.postscriptNames"] = dict(d["ps"])
+    order = (list(d["extra"]) + list(d["glyphs"])) if d["front"] else (list(d["glyphs"]) + list(d["extra"]))
+    if otf is None:
+        otf = TTFont()
+        otf.setGlyphOrder(order)
+    return PostProcessor(otf, ufo)
+
+
+CONTRACTS[f"{PP}._build_production_names"].runtime = Runtime(names_cases, lambda d: {"self": build_pp(d)}, call=lambda fn, a: fn(a["self"]))
+
+
+# =====================================================================================================
+# _build_production_name, the lib-supplied case (public.postscriptNames present and non-empty)
+
+contract(
+    f"{PP}._build_production_name",
+    name="lib",
+    props=["C11"],
+    params={"self": Ref("PostProcessor"), "glyph": Ref("PPGlyph")},
+    returns=Opt(STR),
+    requires=["self._postscriptNames is not None", "len(self._postscriptNames) > 0"],
+    ensures={
+        # the lib-supplied PostScript name wins whenever it is given and non-empty; otherwise the glyph keeps its name
+        "lib-name-wins": "implies(glyph.name in self._postscriptNames and len(self._postscriptNames[glyph.name]) > 0, result == self._postscriptNames[glyph.name])",
+        "else-own-name": "implies(glyph.name not in self._postscriptNames or len(self._postscriptNames[glyph.name]) == 0, result == glyph.name)",
+        "a-string": "result is not None",
+    },
+    canaries={"always-own-name": "result == glyph.name"},
+)
+
+
+def _bpn_lib_build(d):
+    pp = build_pp(d)
+    return [{"self": pp, "glyph": pp.glyphSet[g]} for g in d["glyphs"]]
+
+
+def _bpn_lib_cases(rng, n):
+    out = []
+    for d in names_cases(rng, n):
+        for k in range(len(d["glyphs"])):
+            out.append({**d, "k": k})
+    return out[:n]
+
+
+CONTRACTS[f"{PP}._build_production_name#lib"].runtime = Runtime(
+    _bpn_lib_cases, lambda d: _bpn_lib_build(d)[d["k"]], call=lambda fn, a: fn(a["self"], a["glyph"])
+)
+
+
+# =====================================================================================================
+# lib / ufo, sfnt reload (ASSUMED library models) and the functions that rename
+
+from fontTools.ttLib.standardGlyphOrder import standardGlyphOrder as _STD  # noqa: E402
+
+from ufo2ft.constants import GLYPHS_DONT_USE_PRODUCTION_NAMES as _K_DONT  # noqa: E402
+from ufo2ft.constants import KEEP_GLYPH_NAMES as _K_KEEP  # noqa: E402
+from ufo2ft.constants import USE_PRODUCTION_NAMES as _K_USE  # noqa: E402
+
+_LIBKEYS = {_K_KEEP: "keep", _K_USE: "use", _K_DONT: "dont"}
+
+
+def _pplib_get(ex, st, self, args, kwargs, node):
+    from pyvc import ops
+
+    k = args[0]
+    if not is_const(k) or k.py not in _LIBKEYS:
+        raise Unsupported(f"PPLib.get({k}): only the three production-name switches are modelled", node)
+    v = ex.read_field(st, self, _LIBKEYS[k.py])
+    if len(args) > 1:
+        return ops.ite(v.ty.sort().is_some(v.term), Val(BOOL, v.ty.sort().val(v.term)), args[1])
+    return v
+
+
+cls("PPLib", fields={"keep": Opt(BOOL), "use": Opt(BOOL), "dont": Opt(BOOL)}, methods={"get": _pplib_get},
+    notes="ufo.lib restricted to the three switches keepGlyphNames / useProductionNames / Glyphs' \"Don't use Production Names\" (optional plist booleans)")
+cls("PPUfo", fields={"lib": Ref("PPLib")}, notes="source UFO: lib")
+CLASSES["PPFont"].views["glyphOrder"] = lambda o: list(o.getGlyphOrder())
+CLASSES["PPFont"].fields["cfg"] = INT  # opaque configuration handle, only passed along
+
+
+# ---- BytesIO / TTFont.save / TTFont(stream): the sfnt round trip ---------------------------------------------------
+cls("PPStream", fields={"order": List(STR), "names_stored": BOOL, "has_post": BOOL, "has_CFF": BOOL, "has_CFF2": BOOL, "post_format": REAL, "written": BOOL},
+    methods={"seek": lambda ex, st, self, a, k, n: Val.const(None)},
+    notes="io.BytesIO holding a saved font: what TTFont.save wrote (glyph order, table set, post format)")
+
+
+@trusted("_io.BytesIO", "BytesIO() is a fresh empty stream")
+def _bytesio(ex, st, args, kwargs, node):
+    s = ex.new_object(st, "PPStream")
+    ex.write_field(st, s, "written", Val.const(False), node)
+    return s
+
+
+def _font_save(ex, st, self, args, kwargs, node):
+    (s,) = args
+    if not (isinstance(s.ty, T.Ref) and s.ty.cls == "PPStream"):
+        raise Unsupported("TTFont.save to something that is not a modelled stream", node)
+    post = ex.read_field(st, self, "post")
+    hp = _font_has(ex, st, self, Val.const("post"))
+    hc = _font_has(ex, st, self, Val.const("CFF "))
+    fmt = ex.read_field(st, post, "formatType").term
+    for f, v in (("order", ex.read_field(st, self, "glyphOrder")), ("has_post", Val(BOOL, hp)), ("has_CFF", Val(BOOL, hc)),
+                 ("has_CFF2", ex.read_field(st, self, "has_CFF2")), ("post_format", Val(REAL, fmt)),
+                 # glyph names survive in the file iff a 'CFF ' table or a format 2.0 post table carries them
+                 ("names_stored", Val(BOOL, z3.Or(hc, z3.And(hp, fmt == z3.RealVal(2))))), ("written", Val.const(True))):
+        ex.write_field(st, s, f, v, node)
+    return Val.const(None)
+
+
+CLASSES["PPFont"].methods["save"] = _font_save
+
+
+@trusted("fontTools.ttLib.ttFont.TTFont", "TTFont(stream, cfg=...) loads what TTFont.save wrote: a FRESH font object, nothing decompiled yet (pristine, CFF2 not loaded), "
+         "same table set, same post format; same glyph order when the file stores glyph names ('CFF ' or post format 2.0), otherwise made-up names of the same count")
+def _ttfont_load(ex, st, args, kwargs, node):
+    if len(args) != 1 or not (isinstance(args[0].ty, T.Ref) and args[0].ty.cls == "PPStream"):
+        raise Unsupported("TTFont(...) other than loading from a modelled stream", node)
+    s = args[0]
+    ex.safety(st, ex.read_field(st, s, "written").term, "TTLibError", node)
+    f = ex.new_object(st, "PPFont")
+    p = ex.new_object(st, "PPPost")
+    order = ex.read_field(st, s, "order")
+    made_up = fresh(List(STR), "madeUpNames")
+    st.assume(z3.Length(made_up) == z3.Length(order.term))
+    new_order = z3.If(ex.read_field(st, s, "names_stored").term, order.term, made_up)
+    for fld, v in (("glyphOrder", Val(List(STR), new_order)), ("pristine", Val.const(True)), ("CFF2_loaded", Val.const(False)),
+                   ("has_post", ex.read_field(st, s, "has_post")), ("has_CFF", ex.read_field(st, s, "has_CFF")),
+                   ("has_CFF2", ex.read_field(st, s, "has_CFF2")), ("post", p)):
+        ex.write_field(st, f, fld, v, node)
+    if "cfg" in kwargs:
+        ex.write_field(st, f, "cfg", kwargs["cfg"], node)
+    ex.write_field(st, p, "formatType", ex.read_field(st, s, "post_format"), node)
+    ex.write_field(st, p, "present", ex.read_field(st, s, "has_post"), node)
+    return f
+
+
+@trusted("builtins.delattr", "delattr(obj, 'name') removes the attribute (hasattr becomes False)")
+def _delattr(ex, st, args, kwargs, node):
+    o, n = args
+    if not is_const(n) or not isinstance(o.ty, T.Ref):
+        raise Unsupported("delattr with a computed name", node)
+    cs = ex.class_of(o.ty)
+    if n.py not in cs.has:
+        raise Unsupported(f"delattr({cs.name}, {n.py!r})", node)
+    ex.safety(st, ex.read_field(st, o, cs.has[n.py]).term, "AttributeError", node)
+    ex.write_field(st, o, cs.has[n.py], Val.const(False), node)
+    return Val.const(None)
+
+
+contract(
+    "ufo2ft.postProcessor:_reloadFont",
+    props=["C11"],
+    params={"font": Ref("PPFont")},
+    returns=Ref("PPFont"),
+    ensures={
+        # a new object: whatever held the old names is left behind
+        # (not `fresh(result)`: at call sites the engine assumes the returned reference allocated in the very heap
+        # that `fresh` refers to, which would make the caller's state inconsistent — notes/C11.requests.md R6)
+        "new-object": "result is not font",
+        "pristine": "result.pristine and not result.CFF2_loaded",
+        "same-tables": "iff('post' in result, 'post' in font) and iff('CFF ' in result, 'CFF ' in font) and iff('CFF2' in result, 'CFF2' in font)",
+        "same-post-format": "implies('post' in font, result['post'].formatType == font['post'].formatType)",
+        "same-names-when-stored": "implies('CFF ' in font or ('post' in font and font['post'].formatType == 2.0), result.glyphOrder == font.glyphOrder)",
+        "same-count": "len(result.glyphOrder) == len(font.glyphOrder)",
+        "source-untouched": "font.glyphOrder == old(font.glyphOrder)",
+    },
+    canaries={"same-object": "result is font"},
+)
+
+_NO_CFF = "'CFF ' not in {o} and ('CFF2' not in {o} or not {o}.isLoaded('CFF2'))"
+_EXTRA_SUB = "all(g in elems({o}.glyphOrder) and g not in standardGlyphOrder for g in {o}['post'].extraNames)"
+_EXTRA_SUP = "all(implies(g not in standardGlyphOrder, g in elems({o}['post'].extraNames)) for g in {o}.glyphOrder)"
+_POST_FIELDS = ["PPPost.formatType", "PPPost.extraNames", "PPPost.mapping", "PPPost.glyphOrder", "PPPost.has_extraNames", "PPPost.has_mapping"]
+
+contract(
+    f"{PP}.set_post_table_format",
+    props=["C11"],
+    params={"otf": Ref("PPFont"), "formatType": REAL},
+    globals={"standardGlyphOrder": list(_STD)},
+    modifies=_POST_FIELDS,
+    raises={"NotImplementedError": "formatType != 2.0 and formatType != 3.0"},
+    ensures={
+        "format": "implies('post' in otf, otf['post'].formatType == formatType)",
+        # 2.0: the extra names are exactly the non-standard names of the glyph order; stale name->index map dropped
+        "names-2-sub": "implies('post' in otf and formatType == 2.0, " + _EXTRA_SUB.format(o="otf") + ")",
+        "names-2-sup": "implies('post' in otf and formatType == 2.0, " + _EXTRA_SUP.format(o="otf") + ")",
+        "names-2-map": "implies('post' in otf and formatType == 2.0, len(otf['post'].mapping) == 0)",
+        # 3.0: no names are left on the table object
+        "names-3": "implies('post' in otf and formatType == 3.0, not hasattr(otf['post'], 'extraNames') and not hasattr(otf['post'], 'mapping') and otf['post'].glyphOrder is None)",
+        "order-kept": "otf.glyphOrder == old(otf.glyphOrder)",
+    },
+    bounded_ensures={"extra-names-in-glyph-order": "implies('post' in otf and formatType == 2.0, otf['post'].extraNames == [g for g in otf.glyphOrder if g not in standardGlyphOrder])"},
+    canaries={"always-2": "implies('post' in otf, otf['post'].formatType == 2.0)"},
+)
+
+_UNIQ = "all(all(implies(a != b, rename_map[a] != rename_map[b]) for b in rename_map) for a in rename_map)"
+_RESV = "all(all(implies(m not in rename_map, rename_map[a] != m) for m in old(otf.glyphOrder)) for a in rename_map)"
+
+contract(
+    f"{PP}.rename_glyphs",
+    name="no-cff",
+    props=["C11"],
+    params={"otf": Ref("PPFont"), "rename_map": Dict(STR, STR)},
+    globals={"standardGlyphOrder": list(_STD)},
+    modifies=["PPFont.glyphOrder"] + _POST_FIELDS,
+    requires=[
+        # TTF, or CFF2 whose table has not been decompiled (CFF2 stores no glyph names): no charset to rewrite
+        _NO_CFF.format(o="otf"),
+        # typestate, from the comment in process_glyph_names: "We need to reload the font *before* renaming glyphs,
+        # since various tables may have been build/loaded using the original glyph names"
+        "otf.pristine",
+    ],
+    ensures={
+        # the new glyph order is the old one with every name passed through the map: same length, same positions
+        "mapped": "len(otf.glyphOrder) == len(old(otf.glyphOrder)) and all(otf.glyphOrder[k] == rename_map.get(old(otf.glyphOrder)[k], old(otf.glyphOrder)[k]) for k in range(len(old(otf.glyphOrder))))",
+        # an injective map that avoids the names it does not touch cannot create a duplicate glyph name
+        "no-duplicates": f"implies(distinct(old(otf.glyphOrder)) and {_UNIQ} and {_RESV}, distinct(otf.glyphOrder))",
+        "post-names-sub": "implies('post' in otf and otf['post'].formatType == 2.0, all(any(otf.glyphOrder[k] == g for k in range(len(otf.glyphOrder))) and g not in standardGlyphOrder for g in otf['post'].extraNames))",
+        "post-names-sup": "implies('post' in otf and otf['post'].formatType == 2.0, " + _EXTRA_SUP.format(o="otf") + ")",
+        "post-names-map": "implies('post' in otf and otf['post'].formatType == 2.0, len(otf['post'].mapping) == 0)",
+        "post-format-kept": "implies('post' in otf, otf['post'].formatType == old(otf['post'].formatType))",
+    },
+    bounded_ensures={"extra-names-in-glyph-order": "implies('post' in otf and otf['post'].formatType == 2.0, otf['post'].extraNames == [g for g in otf.glyphOrder if g not in standardGlyphOrder])"},
+    canaries={"unchanged": "otf.glyphOrder == old(otf.glyphOrder)"},
+)
+CLASSES["PostProcessor"].methods["rename_glyphs"] = StaticShim(f"{PP}.rename_glyphs#no-cff")
+
+
+# ---- run-time side for set_post_table_format / rename_glyphs (real TTFont + real post table object) ---------------
+_NAME_CARRIERS = {"post", "CFF ", "CFF2", "maxp", "head"}
+CLASSES["PPFont"].views["pristine"] = lambda o: set(o.tables) <= _NAME_CARRIERS
+CLASSES["PPFont"].views["CFF2_loaded"] = lambda o: o.isLoaded("CFF2")
+
+
+def build_font(order, post):
+    """post: None | {"format": 2.0|3.0, "stale": bool}"""
+    from fontTools.ttLib import TTFont, newTable
+
+    otf = TTFont()
+    otf.setGlyphOrder(list(order))
+    if post is not None:
+        t = newTable("post")
+        t.formatType = post["format"]
+        if post.get("stale"):
+            t.extraNames = ["stale"]
+            t.mapping = {"stale": 0}
+        otf["post"] = t
+    return otf
+
+
+def _spf_cases(rng, n):
+    out = []
+    for d in names_cases(rng, n):
+        order = (d["extra"] + d["glyphs"]) if d["front"] else (d["glyphs"] + d["extra"])
+        post = rng.choice([None, {"format": 2.0, "stale": True}, {"format": 3.0, "stale": False}, {"format": 3.0, "stale": True}, {"format": 2.0, "stale": False}])
+        out.append({"order": order + rng.sample(["A", "space", "a"], 2), "post": post, "formatType": rng.choice([2.0, 3.0, 3.0, 2.0, 2.0, 3.0, 1.0, 4.0])})
+    return out
+
+
+CONTRACTS[f"{PP}.set_post_table_format"].runtime = Runtime(
+    _spf_cases, lambda d: {"otf": build_font(d["order"], d["post"]), "formatType": d["formatType"]}
+)
+
+
+def _rg_cases(rng, n):
+    out = []
+    for d in names_cases(rng, n):
+        order = (d["extra"] + d["glyphs"]) if d["front"] else (d["glyphs"] + d["extra"])
+        order = list(dict.fromkeys(order + rng.sample(["A", "space"], 1)))
+        r = rng.random()
+        if r < 0.5:
+            m = build_pp(d)._build_production_names()
+        elif r < 0.8:
+            m = {g: rng.choice(_PS_POOL + order) for g in order if rng.random() < 0.5}
+        else:
+            m = {}
+        post = rng.choice([None, {"format": 2.0, "stale": True}, {"format": 3.0, "stale": False}, {"format": 2.0, "stale": False}])
+        out.append({"order": order, "post": post, "map": m})
+    return out
+
+
+CONTRACTS[f"{PP}.rename_glyphs#no-cff"].runtime = Runtime(
+    _rg_cases, lambda d: {"otf": build_font(d["order"], d["post"]), "rename_map": dict(d["map"])}
+)
+
+
+# =====================================================================================================
+# _rename_glyphs_from_ufo = _build_production_names ; rename_glyphs       (TTF / CFF2 fonts)
+
+
+def _proxy_otf(o):
+    from pyvc.rt import Proxy
+
+    return Proxy(o.otf, CLASSES["PPFont"])
+
+
+# run-time evaluation: `self.otf` must itself be seen through the PPFont views (pristine, glyphOrder, ...);
+# object identity of the font is compared through `otf_id` (old(...) deep-copies values at run time)
+CLASSES["PostProcessor"].views["otf"] = _proxy_otf
+CLASSES["PostProcessor"].derived["otf_id"] = lambda ex, st, self: ex.read_field(st, self, "otf")
+CLASSES["PostProcessor"].views["otf_id"] = lambda o: id(o.otf)
+
+_SELF_NO_CFF = _NO_CFF.format(o="self.otf")
+# what the top-level statement asks of the final glyph order, in terms of the order before renaming (`O`)
+_FINAL = {
+    # "The final names are unique"
+    "final-names-unique": "implies(distinct(old(self.order)), distinct(self.order))",
+    "same-glyph-count": "len(self.order) == len(old(self.order))",
+    # glyphs that are not in the source keep their names, position by position
+    "kept-names": "all(implies(old(self.order)[k] not in self.srcnames, self.order[k] == old(self.order)[k]) for k in range(len(old(self.order))))",
+    # every renamed glyph ends up with legal characters only
+    "renamed-legal": "all(implies(old(self.order)[k] in self.srcnames, legal(self.order[k])) for k in range(len(old(self.order))))",
+}
+
+contract(
+    f"{PP}._rename_glyphs_from_ufo",
+    props=["C11"],
+    params={"self": Ref("PostProcessor")},
+    modifies=["PPFont.glyphOrder"] + _POST_FIELDS,
+    requires=[_SELF_NO_CFF, "self.otf.pristine"],
+    ensures={
+        **_FINAL,
+        "same-font-object": "self.otf_id == old(self.otf_id)",
+        "post-format-kept": "implies('post' in self.otf, self.otf['post'].formatType == old(self.otf['post'].formatType))",
+    },
+    canaries={"nothing-renamed": "self.order == old(self.order)"},
+)
+
+
+def _rgu_build(d):
+    pp = build_pp(d)
+    order = pp.otf.getGlyphOrder()
+    pp.otf = build_font(order, d.get("post"))
+    return {"self": pp}
+
+
+def _rgu_cases(rng, n):
+    out = []
+    for d in names_cases(rng, n):
+        d["post"] = rng.choice([None, {"format": 2.0, "stale": True}, {"format": 2.0, "stale": False}])
+        out.append(d)
+    return out
+
+
+CONTRACTS[f"{PP}._rename_glyphs_from_ufo"].runtime = Runtime(_rgu_cases, _rgu_build, call=lambda fn, a: fn(a["self"]))
+
+
+# =====================================================================================================
+# process_glyph_names: decision table + typestate (reload BEFORE rename; reload AFTER dropping names)
+
+_LIBGET = "self.ufo.lib.get({k!r}{d})"
+# keepGlyphNames / useProductionNames as the statement defines them (argument wins; lib switches otherwise)
+_K = "(True if useProductionNames is not None else " + _LIBGET.format(k=_K_KEEP, d=", True") + ")"
+_U = (
+    "(useProductionNames if useProductionNames is not None else "
+    + _LIBGET.format(k=_K_USE, d=", (not " + _LIBGET.format(k=_K_DONT, d="") + ") and self._postscriptNames is not None")
+    + ")"
+)
+_HAS_CFF0 = "old('CFF ' in self.otf)"
+_HAS_POST0 = "old('post' in self.otf)"
+
+contract(
+    f"{PP}.process_glyph_names",
+    props=["C11"],
+    params={"self": Ref("PostProcessor"), "useProductionNames": Opt(BOOL)},
+    modifies=["PostProcessor.otf", "PPFont.glyphOrder"] + _POST_FIELDS,
+    requires=[
+        # renaming a font with a 'CFF ' table rewrites charset/CharStrings by a dict comprehension with computed keys,
+        # which is outside the engine's fragment: those inputs are covered by the bounded observer (vcheck/hooks/c11.py)
+        f"implies({_K} and {_U}, 'CFF ' not in self.otf)",
+    ],
+    ensures={
+        # --- nothing to rename: the font object and its glyph order are left alone
+        "keep-no-rename": f"implies({_K} and not {_U}, self.otf_id == old(self.otf_id) and self.order == old(self.order))",
+        # --- rename: on a RELOADED font (typestate; the callee's precondition `pristine` is proved at the call site) ...
+        "rename-on-reloaded-font": f"implies({_K} and {_U}, self.otf_id != old(self.otf_id))",
+        # ... and the final names are unique / legal / kept where the source has no glyph (names survive the reload through post 2.0)
+        **{k: f"implies({_K} and {_U} and {_HAS_POST0}, {v})" for k, v in _FINAL.items()},
+        # --- names kept: TTF/CFF2 store them in a format 2.0 post table
+        "post-2-when-kept": f"implies({_K} and not {_HAS_CFF0} and 'post' in self.otf, self.otf['post'].formatType == 2.0)",
+        # --- names dropped (TTF/CFF2): post 3.0, THEN reload, so that no table keeps the old names
+        "drop-names": f"implies(not {_K} and not {_HAS_CFF0}, self.otf_id != old(self.otf_id) and self.otf.pristine and implies('post' in self.otf, self.otf['post'].formatType == 3.0))",
+        # --- names cannot be dropped from CFF 1.0: nothing happens
+        "drop-unsupported-cff": f"implies(not {_K} and {_HAS_CFF0}, self.otf_id == old(self.otf_id) and self.order == old(self.order))",
+        "same-glyph-count-always": "len(self.order) == len(old(self.order))",
+        "same-tables": f"iff('CFF ' in self.otf, {_HAS_CFF0}) and iff('post' in self.otf, {_HAS_POST0})",
+    },
+    canaries={"never-reloads": "self.otf_id == old(self.otf_id)", "always-renames": "self.order != old(self.order)"},
+)
+
+
+def compiled_font(d):
+    """A real binary-ready font for the description: OutlineTTFCompiler / OutlineOTFCompiler output (no post-processing yet);
+    flavor 'cff2' converts the CFF table with fontTools' convertCFFToCFF2 as process_cff does."""
+    import logging
+
+    logging.getLogger("ufo2ft").setLevel(logging.ERROR)
+    logging.getLogger("fontTools").setLevel(logging.ERROR)
+    from fontTools.cffLib.CFFToCFF2 import convertCFFToCFF2
+
+    from ufo2ft.outlineCompiler import OutlineOTFCompiler, OutlineTTFCompiler
+    from ufo2ft.postProcessor import PostProcessor
+
+    ufo = build_pp(d, otf=FakeFont([])).ufo
+    for k, v in (d.get("lib") or {}).items():
+        ufo.lib[k] = v
+    flavor = d.get("flavor", "ttf")
+    otf = (OutlineTTFCompiler if flavor == "ttf" else OutlineOTFCompiler)(ufo).compile()
+    if flavor == "cff2":
+        convertCFFToCFF2(otf)
+    return PostProcessor(otf, ufo)
+
+
+def _pgn_cases(rng, n):
+    out = []
+    for d in names_cases(rng, 4 * n):
+        if any(ord(ch) > 126 for g in d["glyphs"] for ch in g):
+            continue
+        lib = {}
+        if rng.random() < 0.4:
+            lib[_K_KEEP] = rng.random() < 0.5
+        if rng.random() < 0.4:
+            lib[_K_USE] = rng.random() < 0.5
+        if rng.random() < 0.3:
+            lib[_K_DONT] = rng.random() < 0.6
+        d.update(lib=lib, flavor=rng.choice(["ttf", "ttf", "cff2", "cff"]), arg=rng.choice([None, None, True, False]))
+        out.append(d)
+        if len(out) >= n:
+            break
+    return out
+
+
+CONTRACTS[f"{PP}.process_glyph_names"].runtime = Runtime(
+    _pgn_cases, lambda d: {"self": compiled_font(d), "useProductionNames": d["arg"]}, call=lambda fn, a: fn(a["self"], a["useProductionNames"])
 )
